@@ -153,7 +153,7 @@ class AccfgGen:
             ic = self.fresh("ic")
             node = {"k": "for", "iv": iv, "ic": ic, "body": [], "carry": [], "res": []}
             if p["const_bounds"] and r.random() < 0.5:
-                node["lb"], node["ub"], node["step"] = r.choice([("%c0", "%c1"), ("%c0", "%c2"), ("%c0", "%c3"), ("%c0", "%c0"), ("%c1", "%c1"), ("%c1", "%c3"), ("%c2", "%c1")]) + (r.choice(["%c1", "%c1", "%c2"]),)
+                node["lb"], node["ub"], node["step"] = r.choice([("%c0", "%c1"), ("%c0", "%c2"), ("%c0", "%c3"), ("%c0", "%c0"), ("%c1", "%c1"), ("%c1", "%c3"), ("%c2", "%c1")]) + (r.choice(["%c1", "%c1", "%c2", "%c2", "%c3"]),)  # (also ranges shorter than one step: exactly one trip)
             else:
                 node["lb"] = r.choice(["%c0", "%c0", "%l0", "%c1"]) if p["lb_step"] else "%c0"
                 node["ub"] = r.choice(["%n0", "%n1", "%n2"])
